@@ -9,6 +9,7 @@ package composite
 // THE HOOK; spec, labels, annotations and owner data are those just read.
 
 import (
+	metav1 "k8s.io/apimachinery/pkg/apis/meta/v1"
 	"k8s.io/apimachinery/pkg/apis/meta/v1/unstructured"
 
 	v1 "metacontroller/pkg/controller/composite/api/v1"
@@ -33,6 +34,12 @@ func VerifC11_SyncTail() {
 	deleting := rt.Bool("deleting")
 	if hasFin {
 		verifSetFinalizers(cached, verifFinalizerName)
+	}
+	// the controller may select its parents by label; a live parent that carries
+	// our finalizer but no longer matches is finalized too (finalize-on-unmatch)
+	unmatched := finalizeHook && hasFin && !deleting && rt.Bool("live-parent-no-longer-matches-the-controller-selector")
+	if unmatched {
+		rt.Cover("tail/finalize-on-unmatch")
 	}
 	if deleting {
 		env.MarkDeleting(cached)
@@ -79,8 +86,12 @@ func VerifC11_SyncTail() {
 	}
 	sync := &verifHook{enabled: true, fn: answer(false)}
 	fin := &verifHook{enabled: finalizeHook, fn: answer(finalized)}
+	var parentSel *metav1.LabelSelector
+	if unmatched {
+		parentSel = &metav1.LabelSelector{MatchLabels: map[string]string{"managed": "yes"}}
+	}
 	pc := verifNewPC(w, verifPCConfig{
-		ParentRes: env.ThingRes, GenerateSelector: true, FinalizeEnabled: finalizeHook,
+		ParentRes: env.ThingRes, GenerateSelector: true, FinalizeEnabled: finalizeHook, ParentSelector: parentSel,
 		Children: []verifChildRule{{Res: env.ConfigMapRes, Strategy: verifStrategyOf("InPlace")}},
 		Sync:     sync, Finalize: fin,
 	})
